@@ -133,6 +133,32 @@ class NAX:
 from .storages import ArmedJsonCache, ArmedPickleCache  # noqa: E402
 
 
+@labtech.task(cache=None, max_parallel=2)
+class NM:
+    """Uncached and limited: the two decorator options combined."""
+    name: str
+    one: Any = None
+    many: Any = ()
+    named: Any = None
+    p: Any = None
+
+    def run(self):
+        return run_body(self)
+
+
+@labtech.task(cache=JsonCache(), max_parallel=1)
+class NK:
+    """Other cache format and limited."""
+    name: str
+    one: Any = None
+    many: Any = ()
+    named: Any = None
+    p: Any = None
+
+    def run(self):
+        return run_body(self)
+
+
 @labtech.task(cache=ArmedPickleCache())
 class NS:
     """Pickle cache whose save() can run under a line failpoint."""
@@ -158,9 +184,9 @@ class NSJ:
         return run_body(self)
 
 
-TYPES = {c.__name__: c for c in (NA, NB, NC, ND, NN, NJ, NF, NP, NAX, NS, NSJ)}
-MAX_PARALLEL = {'NS': None, 'NSJ': None, 'NA': None, 'NB': 1, 'NC': 2, 'ND': 3, 'NN': None, 'NJ': None, 'NF': None, 'NP': None, 'NAX': None}
-UNCACHED = {'NN'}
+TYPES = {c.__name__: c for c in (NA, NB, NC, ND, NN, NJ, NF, NP, NAX, NS, NSJ, NM, NK)}
+MAX_PARALLEL = {'NM': 2, 'NK': 1, 'NS': None, 'NSJ': None, 'NA': None, 'NB': 1, 'NC': 2, 'ND': 3, 'NN': None, 'NJ': None, 'NF': None, 'NP': None, 'NAX': None}
+UNCACHED = {'NN', 'NM'}
 
 
 def filter_ctx(tname, name, ctx):
@@ -184,6 +210,28 @@ class Color(Enum):
 class Shade(Enum):
     RED = 1
     DARK = 'd'
+
+
+from enum import IntEnum, IntFlag, StrEnum  # noqa: E402
+
+
+class Level(IntEnum):
+    """Mixed-in enum: members are int instances."""
+    LOW = 1
+    HIGH = 2
+    ZERO = 0
+
+
+class Mode(StrEnum):
+    """Mixed-in enum: members are str instances."""
+    A = 'a'
+    RED = 'RED'
+    EMPTY = ''
+
+
+class Perm(IntFlag):
+    R = 1
+    W = 2
 
 
 def _val_run(self):
